@@ -5,7 +5,12 @@ From MS Require Export Proto.
 
 Definition nonempty (b : bytes) : bool := negb (length b =? 0)%nat.
 
+Definition not_stun_head (b : bytes) : bool := (2 <=? length b)%nat && negb (u16_at 0 b =? 257).
+
 Definition env_ok (E : env) : bool :=
   smack_ok (e_proto_tbl E) && smack_ok (e_http_tbl E) &&
   nonempty (e_http_pre E) && nonempty (e_ssh_banner E) && nonempty (e_ghost E) &&
-  bytes_ok (e_http_pre E) && bytes_ok (e_http_post E) && bytes_ok (e_ssh_banner E) && bytes_ok (e_ghost E).
+  bytes_ok (e_http_pre E) && bytes_ok (e_http_post E) && bytes_ok (e_ssh_banner E) && bytes_ok (e_ghost E) &&
+  (* C03: a constant reply is at least two bytes long and does not begin like a
+     STUN binding success response (01 01) *)
+  not_stun_head (e_http_pre E) && not_stun_head (e_ssh_banner E) && not_stun_head (e_ghost E).
